@@ -34,6 +34,61 @@ class IdentFn : public Function { public:
     Real calcDerivative(const Array_<int>& d, const Vector&) const override { return d.size() == 1 ? 1.0 : 0.0; }
     int getArgumentSize() const override { return 1; } int getMaxDerivativeOrder() const override { return 10; } };
 
+// a + b*x
+class LinFn : public Function { Real a, b; public:
+    LinFn(Real slope, Real intercept) : a(intercept), b(slope) {}
+    Real calcValue(const Vector& x) const override { return a + b * x[0]; }
+    Real calcDerivative(const Array_<int>& d, const Vector&) const override { return d.size() == 1 ? b : 0.0; }
+    int getArgumentSize() const override { return 1; } int getMaxDerivativeOrder() const override { return 10; } };
+// coef * prod_i T_i(s_i x_i + o_i), T in {1, identity, cos, sin}: multi-argument functions with non-zero MIXED second partials
+class TrigProdFn : public Function { public:
+    struct Fac { int kind; Real s, o; };   // kind 0: 1; 1: s*x+o; 2: cos(s*x+o); 3: sin(s*x+o)
+    TrigProdFn(Real c, std::initializer_list<Fac> fl) : coef(c), f(fl) {}
+    static Real dn(const Fac& k, Real x, int n) {
+        const Real a = k.s * x + k.o; Real sn = 1; for (int i = 0; i < n; ++i) sn *= k.s;
+        switch (k.kind) {
+            case 0: return n == 0 ? 1.0 : 0.0;
+            case 1: return n == 0 ? a : n == 1 ? k.s : 0.0;
+            case 2: { int m = n % 4; return sn * (m == 0 ? std::cos(a) : m == 1 ? -std::sin(a) : m == 2 ? -std::cos(a) : std::sin(a)); }
+            default: { int m = n % 4; return sn * (m == 0 ? std::sin(a) : m == 1 ? std::cos(a) : m == 2 ? -std::sin(a) : -std::cos(a)); }
+        } }
+    Real calcValue(const Vector& x) const override { Real v = coef; for (size_t i = 0; i < f.size(); ++i) v *= dn(f[i], x[(int)i], 0); return v; }
+    Real calcDerivative(const Array_<int>& d, const Vector& x) const override {
+        std::vector<int> n(f.size(), 0); for (int i = 0; i < (int)d.size(); ++i) n[d[i]]++;
+        Real v = coef; for (size_t i = 0; i < f.size(); ++i) v *= dn(f[i], x[(int)i], n[i]); return v; }
+    int getArgumentSize() const override { return (int)f.size(); } int getMaxDerivativeOrder() const override { return 10; }
+private: Real coef; std::vector<Fac> f; };
+// c0 + lin.x + sum_t a_t sin(w_t.x + c_t) + sum_p b_p (l1_p.x)(l2_p.x): generated smooth multi-argument function, analytic partials of any order
+struct GenSpec { int n = 0; Real c0 = 0; std::vector<Real> lin; struct ST { Real a, c; std::vector<Real> w; }; struct PT { Real b; std::vector<Real> l1, l2; }; std::vector<ST> st; std::vector<PT> pt; };
+class GenFn : public Function { GenSpec g; public:
+    explicit GenFn(const GenSpec& gs) : g(gs) {}
+    static Real dotv(const std::vector<Real>& a, const Vector& x) { Real v = 0; for (size_t i = 0; i < a.size(); ++i) v += a[i] * x[(int)i]; return v; }
+    Real calcValue(const Vector& x) const override {
+        Real v = g.c0 + dotv(g.lin, x); for (auto& t : g.st) v += t.a * std::sin(dotv(t.w, x) + t.c); for (auto& p : g.pt) v += p.b * dotv(p.l1, x) * dotv(p.l2, x); return v; }
+    Real calcDerivative(const Array_<int>& d, const Vector& x) const override {
+        const int m = (int)d.size(); Real v = 0;
+        if (m == 1) v += g.lin[d[0]];
+        for (auto& t : g.st) { Real ph = dotv(t.w, x) + t.c, c = t.a; for (int i = 0; i < m; ++i) c *= t.w[d[i]];
+            int k = m % 4; v += c * (k == 0 ? std::sin(ph) : k == 1 ? std::cos(ph) : k == 2 ? -std::sin(ph) : -std::cos(ph)); }
+        for (auto& p : g.pt) { if (m == 1) v += p.b * (p.l1[d[0]] * dotv(p.l2, x) + dotv(p.l1, x) * p.l2[d[0]]); else if (m == 2) v += p.b * (p.l1[d[0]] * p.l2[d[1]] + p.l1[d[1]] * p.l2[d[0]]); }
+        return v; }
+    int getArgumentSize() const override { return g.n; } int getMaxDerivativeOrder() const override { return 10; } };
+// g(q') = f(A q'): the same spatial-coordinate function in re-parameterised coordinates q = A q' (chain rule, any order)
+class ComposeFn : public Function { const Function* f; int n; std::vector<Real> A; public:
+    ComposeFn(const Function* inner, int nn, const std::vector<Real>& a) : f(inner), n(nn), A(a) {}
+    ~ComposeFn() { delete f; }
+    Vector inner(const Vector& qp) const { Vector x(n); for (int i = 0; i < n; ++i) { x[i] = 0; for (int j = 0; j < n; ++j) x[i] += A[i * n + j] * qp[j]; } return x; }
+    Real calcValue(const Vector& qp) const override { return f->calcValue(inner(qp)); }
+    Real calcDerivative(const Array_<int>& d, const Vector& qp) const override {
+        const int m = (int)d.size(); const Vector x = inner(qp); Array_<int> a(m, 0); Real v = 0;
+        for (;;) {   // all index tuples a in {0..n-1}^m
+            Real c = 1; for (int i = 0; i < m; ++i) c *= A[a[i] * n + d[i]];
+            if (c != 0) v += c * f->calcDerivative(a, x);
+            int i = 0; while (i < m && ++a[i] == n) { a[i] = 0; ++i; } if (i == m) break;
+        }
+        return v; }
+    int getArgumentSize() const override { return n; } int getMaxDerivativeOrder() const override { return 10; } };
+
 // which of the six spatial coordinates (rx,ry,rz,tx,ty,tz) is driven by which q, for the FunctionBased mirror of a built-in
 bool functionBasedMap(int type, int map[6], int& nm) {
     using namespace mbgen; for (int k = 0; k < 6; ++k) map[k] = -1;
@@ -49,7 +104,41 @@ bool functionBasedMap(int type, int map[6], int& nm) {
         default: nm = 0; return false;
     }
 }
+// mirrors that need functions of SEVERAL coordinates (BendStretch, SphericalCoords: non-zero mixed second partials) or non-identity
+// single-argument functions (Screw, CantileverFreeBeam)
+bool multiArgMirror(int t) { using namespace mbgen; return t == BendStretch || t == SphericalCoords || t == CantileverFreeBeam || t == Screw; }
+MobilizedBody makeMultiArgFunctionBased(MobilizedBody& par, const mbgen::BodySpec& b, const Body& body) {
+    using namespace mbgen; typedef TrigProdFn::Fac Fac;
+    std::vector<const Function*> fn(6, (const Function*)nullptr); std::vector<std::vector<int>> idx(6); int nm = 0;
+    MobilizedBody::Direction dir = b.reversed ? MobilizedBody::Reverse : MobilizedBody::Forward;
+    auto fill = [&]() { for (int k = 0; k < 6; ++k) if (!fn[k]) fn[k] = new ConstFn(); };
+    if (b.type == BendStretch) {          // R = Rz(q0); p = Rz(q0)(q1,0,0) = (q1 cos q0, q1 sin q0, 0)
+        nm = 2; fn[2] = new IdentFn(); idx[2] = {0};
+        fn[3] = new TrigProdFn(1, {Fac{2, 1, 0}, Fac{1, 1, 0}}); idx[3] = {0, 1};
+        fn[4] = new TrigProdFn(1, {Fac{3, 1, 0}, Fac{1, 1, 0}}); idx[4] = {0, 1};
+    } else if (b.type == Screw) {         // R = Rz(q); p = (0,0,pitch q)
+        nm = 1; fn[2] = new IdentFn(); idx[2] = {0}; fn[5] = new LinFn(b.pitch, 0); idx[5] = {0};
+    } else if (b.type == CantileverFreeBeam) {   // body-fixed XYZ angles; p = (2/3 q1 L, -2/3 q0 L, L - 4/15 (q0^2+q1^2) L)
+        nm = 3; const Real L = b.beamLen; for (int k = 0; k < 3; ++k) { fn[k] = new IdentFn(); idx[k] = {k}; }
+        fn[3] = new LinFn(2.0 / 3 * L, 0); idx[3] = {1}; fn[4] = new LinFn(-2.0 / 3 * L, 0); idx[4] = {0};
+        GenSpec gz; gz.n = 2; gz.c0 = L; gz.lin = {0, 0}; gz.pt.push_back({-4.0 / 15 * L, {1, 0}, {1, 0}}); gz.pt.push_back({-4.0 / 15 * L, {0, 1}, {0, 1}});
+        fn[5] = new GenFn(gz); idx[5] = {0, 1};
+    } else {                              // SphericalCoords: R = Rz(az) Ry(ze), p = R * (rad * axis): rotation axes (z, y, x)
+        nm = 3; const Real s0 = b.negAz ? -1 : 1, s1 = b.negZe ? -1 : 1, s2 = b.negRad ? -1 : 1;
+        fn[0] = new LinFn(s0, b.az0); idx[0] = {0}; fn[1] = new LinFn(s1, b.ze0); idx[1] = {1};
+        const Fac caz{2, s0, b.az0}, saz{3, s0, b.az0}, cze{2, s1, b.ze0}, sze{3, s1, b.ze0}, r{1, s2, 0}, one{0, 1, 0};
+        if (b.radAxis == 0) { fn[3] = new TrigProdFn(1, {caz, cze, r}); fn[4] = new TrigProdFn(1, {saz, cze, r}); fn[5] = new TrigProdFn(-1, {one, sze, r}); }
+        else               { fn[3] = new TrigProdFn(1, {caz, sze, r}); fn[4] = new TrigProdFn(1, {saz, sze, r}); fn[5] = new TrigProdFn(1, {one, cze, r}); }
+        for (int k = 3; k < 6; ++k) idx[k] = {0, 1, 2};
+        fill();
+        std::vector<Vec3> axes = {Vec3(0, 0, 1), Vec3(0, 1, 0), Vec3(1, 0, 0), Vec3(1, 0, 0), Vec3(0, 1, 0), Vec3(0, 0, 1)};
+        return MobilizedBody::FunctionBased(par, b.X_PF, body, b.X_BM, nm, fn, idx, axes, dir);
+    }
+    fill();
+    return MobilizedBody::FunctionBased(par, b.X_PF, body, b.X_BM, nm, fn, idx, dir);
+}
 MobilizedBody makeFunctionBased(MobilizedBody& par, const mbgen::BodySpec& b, const Body& body) {
+    if (multiArgMirror(b.type)) return makeMultiArgFunctionBased(par, b, body);
     int map[6], nm; functionBasedMap(b.type, map, nm);
     std::vector<const Function*> fn; std::vector<std::vector<int>> idx;
     for (int k = 0; k < 6; ++k) { if (map[k] >= 0) { fn.push_back(new IdentFn()); idx.push_back(std::vector<int>(1, map[k])); } else { fn.push_back(new ConstFn()); idx.push_back(std::vector<int>()); } }
@@ -100,7 +189,7 @@ class CustomBall : public MobilizedBody::Custom::Implementation { public:
 
 enum Mirror { NoMirror = 0, MirrorFB, MirrorCustom };
 Mirror chooseMirror(const mbgen::BodySpec& b, bool euler, uint32_t w) {
-    int map[6], nm; bool fb = functionBasedMap(b.type, map, nm);
+    int map[6], nm; bool fb = functionBasedMap(b.type, map, nm) || multiArgMirror(b.type);
     bool cu = (b.type == mbgen::Pin || b.type == mbgen::Slider || (b.type == mbgen::Ball && !euler));
     int c = w % 4;           // 0 -> keep the built-in
     if (c == 0) return NoMirror;
@@ -121,9 +210,11 @@ MobilizedBody makeMirror(SimbodyMatterSubsystem& matter, MobilizedBody& par, con
 // ------------------------------------------------------------------------------------------------ systems and observables
 struct Sys {
     mbgen::Built m; std::unique_ptr<Force::DiscreteForces> df;
-    Sys(const mbgen::ModelSpec& spec, const Vec3& gravity, const std::vector<Mirror>* mir = nullptr) {
+    typedef std::function<bool(int, MobilizedBody&, const mbgen::BodySpec&, const Body&, MobilizedBody&)> Factory;   // returns true if it built body i
+    Sys(const mbgen::ModelSpec& spec, const Vec3& gravity, const std::vector<Mirror>* mir = nullptr, const Factory* fac = nullptr) {
         m.mb.push_back(m.matter.Ground());
         for (size_t i = 0; i < spec.bodies.size(); ++i) { const mbgen::BodySpec& b = spec.bodies[i]; Body::Rigid body(b.massProps());
+            MobilizedBody made; if (fac && (*fac)((int)i, m.mb[b.parent], b, body, made)) { m.mb.push_back(made); continue; }
             m.mb.push_back(makeMirror(m.matter, m.mb[b.parent], b, body, mir ? (*mir)[i] : NoMirror)); }
         df.reset(new Force::DiscreteForces(m.forces, m.matter));
         Force::UniformGravity(m.forces, m.matter, gravity);
@@ -131,11 +222,11 @@ struct Sys {
     }
     void applyForces(State& s, const Vector_<SpatialVec>& F, const Vector& f) const { df->setAllBodyForces(s, F); df->setAllMobilityForces(s, f); }
 };
-struct Obs { std::vector<Transform> X; std::vector<SpatialVec> V, A, Rn; Vector udot, qdot; Matrix M; Real ke = 0; };
+struct Obs { std::vector<Transform> X; std::vector<SpatialVec> V, A, Rn, Cor; Vector udot, qdot; Matrix M; Real ke = 0; };
 Obs observe(const Sys& y, State& s, bool wantM) {
     Obs o; y.m.sys.realize(s, Stage::Acceleration); const SimbodyMatterSubsystem& matter = y.m.matter; int NB = matter.getNumBodies();
     Vector_<SpatialVec> R; matter.calcMobilizerReactionForces(s, R);
-    for (int b = 0; b < NB; ++b) { const MobilizedBody& mb = matter.getMobilizedBody(MobilizedBodyIndex(b)); o.X.push_back(mb.getBodyTransform(s)); o.V.push_back(mb.getBodyVelocity(s)); o.A.push_back(mb.getBodyAcceleration(s)); o.Rn.push_back(R[b]); }
+    for (int b = 0; b < NB; ++b) { const MobilizedBody& mb = matter.getMobilizedBody(MobilizedBodyIndex(b)); o.X.push_back(mb.getBodyTransform(s)); o.V.push_back(mb.getBodyVelocity(s)); o.A.push_back(mb.getBodyAcceleration(s)); o.Rn.push_back(R[b]); o.Cor.push_back(matter.getTotalCoriolisAcceleration(s, MobilizedBodyIndex(b))); }
     o.udot = s.getUDot(); o.qdot = s.getQDot(); o.ke = y.m.sys.calcKineticEnergy(s);
     if (wantM) matter.calcM(s, o.M);
     return o;
@@ -147,7 +238,7 @@ Real nrm(const SpatialVec& v) { return v[0].norm() + v[1].norm(); }
 SpatialVec rot(const Rotation& R, const SpatialVec& v) { return SpatialVec(R * v[0], R * v[1]); }
 
 // compare B against A transformed by the rigid motion X_GA (B's world = X * A's world). tolK multiplies the dynamic tolerances.
-bool compareObs(pbt::Ctx& ctx, const std::string& what, const Obs& a, const Obs& b, const Transform& X, Real tolK, Real fscale, bool cmpUdot, bool cmpM, bool cmpReact, const std::vector<bool>* udotMask = nullptr, const std::vector<bool>* skipReact = nullptr) {
+bool compareObs(pbt::Ctx& ctx, const std::string& what, const Obs& a, const Obs& b, const Transform& X, Real tolK, Real fscale, bool cmpUdot, bool cmpM, bool cmpReact, const std::vector<bool>* udotMask = nullptr, const std::vector<bool>* skipReact = nullptr, bool cmpCor = false) {
     const Rotation& R = X.R(); int NB = (int)a.X.size();
     Real ascale = 1; for (int i = 0; i < NB; ++i) ascale = std::max(ascale, nrm(a.A[i]));
     Real rscale = fscale; for (int i = 0; i < NB; ++i) rscale = std::max(rscale, nrm(a.Rn[i]));
@@ -159,6 +250,10 @@ bool compareObs(pbt::Ctx& ctx, const std::string& what, const Obs& a, const Obs&
         Real dv = refmob::diff(rot(R, a.V[i]), b.V[i]);
         track()(what + " vel", dv / (1e-10 * (1 + nrm(a.V[i]))));
         if (!(dv <= 1e-10 * (1 + nrm(a.V[i])))) { ctx.fail(what + ": body " + std::to_string(i) + " velocity differs by " + S(dv)); return false; }
+        if (cmpCor) {   // total Coriolis acceleration Jdot*u: the same whenever the speeds of the two models are related by a constant matrix
+            Real dc = refmob::diff(rot(R, a.Cor[i]), b.Cor[i]), tc = 1e-9 * (1 + nrm(a.Cor[i]) + nrm(a.V[i]) * nrm(a.V[i]));
+            track()(what + " coriolis", dc / tc);
+            if (!(dc <= tc)) { ctx.fail(what + ": body " + std::to_string(i) + " total Coriolis acceleration differs by " + S(dc)); return false; } }
         Real da = refmob::diff(rot(R, a.A[i]), b.A[i]);
         track()(what + " acc", da / (tolK * ascale));
         if (!(da <= tolK * ascale)) { ctx.fail(what + ": body " + std::to_string(i) + " acceleration differs by " + S(da) + " (tol " + S(tolK * ascale) + ")"); return false; }
@@ -180,6 +275,20 @@ bool compareObs(pbt::Ctx& ctx, const std::string& what, const Obs& a, const Obs&
         for (int i = 0; i < a.M.nrow(); ++i) for (int j = 0; j < a.M.ncol(); ++j) {
             if (track().on) track()(what + " M", std::abs(a.M(i, j) - b.M(i, j)) / (1e-11 * (1 + ms)));
             if (!(std::abs(a.M(i, j) - b.M(i, j)) <= 1e-11 * (1 + ms))) { ctx.fail(what + ": M(" + std::to_string(i) + "," + std::to_string(j) + ") " + S(a.M(i, j)) + " vs " + S(b.M(i, j))); return false; } }
+    }
+    return true;
+}
+// derivative oracle for user-function mobilizers: the reported body acceleration at udot = 0 (velocity-dependent part, Jdot*u) equals
+// d/dt of the reported body velocities along the motion with udot = 0 (5-point central differences, refdyn.h)
+bool fdBiasOracle(pbt::Ctx& ctx, const std::string& what, const Sys& y, State& s) {
+    y.m.sys.realize(s, Stage::Velocity); const SimbodyMatterSubsystem& matter = y.m.matter;
+    Vector zero(s.getNU()); zero = 0; Vector_<SpatialVec> A0; matter.calcBodyAccelerationFromUDot(s, zero, A0);
+    std::vector<SpatialVec> Afd = refdyn::referenceAccelerations(y.m.sys, matter, s, zero, 1e-3);
+    const Real us = 1 + refdyn::maxAbs(s.getU());
+    for (int b = 1; b < matter.getNumBodies(); ++b) {
+        Real d = refmob::diff(A0[b], Afd[b]), sc = 1 + nrm(A0[b]) + matter.getMobilizedBody(MobilizedBodyIndex(b)).getBodyOriginLocation(s).norm();
+        track()("FD bias acceleration (" + what + ")", d / (1e-6 * sc * us * us));
+        if (!(d <= 1e-6 * sc * us * us)) { ctx.fail(what + ": body " + std::to_string(b) + ": reported acceleration at udot=0 differs from d/dt of the reported velocity along qdot by " + S(d)); return false; }
     }
     return true;
 }
@@ -218,7 +327,7 @@ bool closedUnderInversion(int t) { using namespace mbgen; return t == Pin || t =
 // ------------------------------------------------------------------------------------------------ the property
 void property(const pbt::Tape& t, pbt::Ctx& ctx) {
     pbt::Reader g(t[0]);
-    const int mode = g.pick(4); const int nbWanted = 1 + g.pick(5);
+    const int mode = g.pick(5); const int nbWanted = 1 + g.pick(5);
     mbgen::Options opt; opt.maxBodies = 5; opt.allowUnnormalizedQuat = (mode == 0 || mode == 3);
     if (mode == 0) opt.typeMask |= 0;   // all types
     mbgen::ModelSpec spec = mbgen::decodeModel(t, 1, std::min((int)t.size() - 1, nbWanted), g, opt);
@@ -232,7 +341,7 @@ void property(const pbt::Tape& t, pbt::Ctx& ctx) {
     const Vec3 gravity(g.real(-10, 10), g.real(-10, 10), g.real(-10, 10));
     const int pickBody = g.pick(1 << 20);
     const Rotation Rrel = mbgen::readRotation(g); const Vec3 prel = mbgen::readVec3(g, -2, 2);
-    static const char* modeName[] = {"convert", "mirror", "reverse", "relocate"};
+    static const char* modeName[] = {"convert", "mirror", "reverse", "relocate", "reparam"};
     ctx.label(std::string("mode:") + modeName[mode]);
     const int nb = spec.nBodies();
     const Real fscale = 10 + gravity.norm() * 20;
@@ -282,10 +391,13 @@ void property(const pbt::Tape& t, pbt::Ctx& ctx) {
         return;
     }
     if (mode == 1) {   // ------------------------------------------------------------------ (b) FunctionBased / Custom mirrors
-        std::vector<Mirror> mir(nb, NoMirror); bool any = false, multi = false;
+        std::vector<Mirror> mir(nb, NoMirror); bool any = false, multi = false, anyFB = false;
         for (int i = 0; i < nb; ++i) { uint32_t w = t[i + 1].size() > (size_t)mbgen::K ? t[i + 1][mbgen::K] : 0u; mir[i] = chooseMirror(spec.bodies[i], spec.euler, w);
             if (mir[i] != NoMirror) { any = true; ctx.label(std::string(mir[i] == MirrorFB ? "mirror:FunctionBased:" : "mirror:Custom:") + mbgen::mobName(spec.bodies[i].type) + (spec.bodies[i].reversed ? "/rev" : "/fwd"));
-                if (mbgen::mobNU(spec.bodies[i].type) >= 2 || spec.bodies[i].parent != 0) multi = true; } }
+                if (mbgen::mobNU(spec.bodies[i].type) >= 2 || spec.bodies[i].parent != 0) multi = true;
+                if (mir[i] == MirrorFB) { anyFB = true; int ty = spec.bodies[i].type;
+                    if (ty == mbgen::BendStretch || ty == mbgen::SphericalCoords || ty == mbgen::CantileverFreeBeam) { ctx.label("fb:multi-argument"); ctx.label(std::string("fb:mirror:") + mbgen::mobName(ty)); }
+                    if (ty == mbgen::BendStretch || ty == mbgen::SphericalCoords) ctx.label("fb:mixed-second-partial"); } } }
         if (!any) ctx.label("mirror:none");
         ctx.nontrivial(any && multi);
         Sys ya(spec, gravity), yb(spec, gravity, &mir); ya.m.setState(spec); yb.m.setState(spec);
@@ -295,7 +407,8 @@ void property(const pbt::Tape& t, pbt::Ctx& ctx) {
         Obs a = observe(ya, ya.m.state, true); bool ok; Real tolK = dynTol(a.M, ctx, ok); if (!ok) { ctx.reject("ill-conditioned-M"); return; }
         Obs b = observe(yb, yb.m.state, true);
         std::vector<bool> skipR = loneParticleSites(ctx, spec, spec, &mir);
-        if (!compareObs(ctx, "user-defined mirror of built-in mobilizers", a, b, Transform(), tolK, fscale, true, true, true, nullptr, &skipR)) return;
+        if (!compareObs(ctx, "user-defined mirror of built-in mobilizers", a, b, Transform(), tolK, fscale, true, true, true, nullptr, &skipR, true)) return;
+        if (anyFB && !fdBiasOracle(ctx, "FunctionBased mirror model", yb, yb.m.state)) return;
         Real qs = 1 + refdyn::maxAbs(a.qdot);
         for (int i = 0; i < a.qdot.size(); ++i) if (!(std::abs(a.qdot[i] - b.qdot[i]) <= 1e-12 * qs)) { ctx.fail("mirror: qdot[" + std::to_string(i) + "] " + S(a.qdot[i]) + " vs " + S(b.qdot[i])); return; }
         Vector qa = ya.m.state.getQDotDot(), qb = yb.m.state.getQDotDot(); Real qds = 1 + refdyn::maxAbs(qa);
@@ -348,6 +461,62 @@ void property(const pbt::Tape& t, pbt::Ctx& ctx) {
         }
         return;
     }
+    if (mode == 4) {   // ------------------------------------------------------------------ (e) FunctionBased re-parameterisation q = A q'
+        // Body k gets a FunctionBased mobilizer with GENERATED smooth functions of all its nm = 2..3 coordinates (non-zero mixed second
+        // partials); model B uses the same functions composed with q = A q' (A generated, strictly diagonally dominant => invertible).
+        const int k = pickBody % nb, nm = 2 + (int)((rng.next() + 1) * 0.999999);
+        // half of the cases use only the three translational slots (fully judged); the others also drive rotations by multi-argument
+        // functions, which is the site of known finding functionbased-hdot-rotation-coupling
+        const bool transOnly = rng.next() < 0;
+        int slot[6] = {0, 1, 2, 3, 4, 5}; for (int i = 5; i > 0; --i) { int j = (int)((rng.next() + 1) * 0.4999999 * (i + 1)); std::swap(slot[i], slot[j]); }
+        if (transOnly) { int tr[3] = {3, 4, 5}; for (int i = 2; i > 0; --i) { int j = (int)((rng.next() + 1) * 0.4999999 * (i + 1)); std::swap(tr[i], tr[j]); } slot[0] = tr[0]; slot[1] = tr[1]; slot[2] = tr[2]; slot[3] = 0; slot[4] = 1; slot[5] = 2; }
+        auto unit = [&](Real lo, Real hi) { Real x = rng.next(); return (x < 0 ? -1 : 1) * (lo + (hi - lo) * std::abs(x)); };   // +-[lo,hi]
+        std::vector<GenSpec> gs(6);    // n == 0 -> constant zero
+        for (int i = 0; i < 6; ++i) { const int sl = slot[i]; bool main = i < nm; if (!main && (rng.next() > -0.3 || (transOnly && sl < 3))) continue;    // ~1/3 of the other slots: purely nonlinear
+            GenSpec& G = gs[sl]; G.n = nm; G.lin.assign(nm, 0.0); if (main) G.lin[i] = 1; G.c0 = 0.2 * rng.next();
+            for (int tt = 0; tt < 2; ++tt) { GenSpec::ST st; st.a = unit(0.05, 0.15); st.c = 3 * rng.next(); for (int j = 0; j < nm; ++j) st.w.push_back(unit(0.3, 1.0)); G.st.push_back(st); }
+            GenSpec::PT pt; pt.b = unit(0.02, 0.05); for (int j = 0; j < nm; ++j) { pt.l1.push_back(unit(0.3, 1.0)); pt.l2.push_back(unit(0.3, 1.0)); } G.pt.push_back(pt); }
+        std::vector<Real> A(nm * nm); for (int i = 0; i < nm; ++i) for (int j = 0; j < nm; ++j) A[i * nm + j] = i == j ? unit(0.6, 1.6) : 0.25 * rng.next();
+        Mat33 A3(1); for (int i = 0; i < nm; ++i) for (int j = 0; j < nm; ++j) A3(i, j) = A[i * nm + j]; const Mat33 A3inv = A3.invert();
+        auto factory = [&](bool composed) { return Sys::Factory([&, composed](int i, MobilizedBody& par, const mbgen::BodySpec& b, const Body& body, MobilizedBody& out) {
+            if (i != k) return false;
+            std::vector<const Function*> fn; std::vector<std::vector<int>> idx; std::vector<int> all; for (int j = 0; j < nm; ++j) all.push_back(j);
+            for (int sl = 0; sl < 6; ++sl) { if (gs[sl].n == 0) { fn.push_back(new ConstFn()); idx.push_back(std::vector<int>()); continue; }
+                const Function* f = new GenFn(gs[sl]); fn.push_back(composed ? (const Function*)new ComposeFn(f, nm, A) : f); idx.push_back(all); }
+            out = MobilizedBody::FunctionBased(par, b.X_PF, body, b.X_BM, nm, fn, idx, b.reversed ? MobilizedBody::Reverse : MobilizedBody::Forward); return true; }); };
+        ctx.label("fb:multi-argument"); ctx.label("fb:mixed-second-partial"); ctx.label(nm == 2 ? "reparam:2-coordinates" : "reparam:3-coordinates"); ctx.label(spec.bodies[k].reversed ? "reparam:reversed" : "reparam:forward");
+        if (ctx.wantDesc) { ctx.desc << " body " << k + 1 << " replaced by a generated FunctionBased mobilizer with " << nm << " coordinates; A=";  for (Real x : A) ctx.desc << x << " "; ctx.desc << "\n"; }
+        ctx.nontrivial(true);
+        // known finding functionbased-hdot-rotation-coupling: buildHdot differentiates the rotation axes assuming that rotation function i
+        // depends on coordinate i only; site (on the INPUT) = a rotation slot driven by a multi-argument function; clauses excluded =
+        // everything at acceleration level (poses, velocities, kinetic energy are still judged).
+        bool rotCoupled = false; for (int sl = 0; sl < 3; ++sl) if (gs[sl].n) rotCoupled = true;
+        ctx.label(rotCoupled ? "reparam:rotation-functions" : "reparam:translation-functions-only");
+        const bool skipAcc = rotCoupled && ctx.known("functionbased-hdot-rotation-coupling");
+        if (skipAcc) ctx.label("excluded:functionbased-hdot-rotation-coupling");
+        Sys::Factory fa = factory(false), fb = factory(true);
+        Sys ya(spec, gravity, nullptr, &fa), yb(spec, gravity, nullptr, &fb); ya.m.setState(spec); yb.m.setState(spec);
+        State& sA = ya.m.state; State& sB = yb.m.state; const int nu = sA.getNU();
+        if (!ctx.check(sB.getNU() == nu && sB.getNQ() == sA.getNQ() && ya.m.mb[k + 1].getNumU(sA) == nm, "generated FunctionBased mobilizer has an unexpected number of coordinates")) return;
+        Vec3 qk(0), uk(0); for (int j = 0; j < nm; ++j) { qk[j] = rng.next(); uk[j] = unit(0.3, 2.0) + 0.1 * j; }    // generic, non-zero, unequal speeds
+        const Vec3 qk2 = A3inv * qk, uk2 = A3inv * uk;
+        for (int j = 0; j < nm; ++j) { ya.m.mb[k + 1].setOneQ(sA, j, qk[j]); ya.m.mb[k + 1].setOneU(sA, j, uk[j]); yb.m.mb[k + 1].setOneQ(sB, j, qk2[j]); yb.m.mb[k + 1].setOneU(sB, j, uk2[j]); }
+        Vector_<SpatialVec> F; Vector f; randomForces(rng, nb + 1, nu, F, f); Vector f2 = f;
+        const int u0 = ya.m.mb[k + 1].getFirstUIndex(sA); std::vector<bool> mask(nu, true);
+        for (int j = 0; j < nm; ++j) { mask[u0 + j] = false; f2[u0 + j] = 0; for (int i = 0; i < nm; ++i) f2[u0 + j] += A[i * nm + j] * f[u0 + i]; }   // f' = A^T f (same virtual power)
+        ya.applyForces(sA, F, f); yb.applyForces(sB, F, f2);
+        Obs a = observe(ya, sA, true); bool ok; Real tolK = dynTol(a.M, ctx, ok); if (!ok) { ctx.reject("ill-conditioned-M"); return; }
+        Obs b = observe(yb, sB, false);
+        if (skipAcc) { compareObs(ctx, "FunctionBased mobilizer re-parameterised by q = A q' (poses, velocities)", a, b, Transform(), Infinity, fscale, false, false, false); return; }
+        if (!compareObs(ctx, "FunctionBased mobilizer re-parameterised by q = A q'", a, b, Transform(), tolK * 10, fscale, true, false, true, &mask, nullptr, true)) return;
+        { Real us = 1 + refdyn::maxAbs(a.udot);     // udot = A udot'
+          for (int i = 0; i < nm; ++i) { Real v = 0; for (int j = 0; j < nm; ++j) v += A[i * nm + j] * b.udot[u0 + j];
+              track()("reparam udot = A udot'", std::abs(v - a.udot[u0 + i]) / (tolK * 10 * us));
+              if (!(std::abs(v - a.udot[u0 + i]) <= tolK * 10 * us)) { ctx.fail("re-parameterised FunctionBased: udot[" + std::to_string(i) + "] " + S(a.udot[u0 + i]) + " vs A*udot' " + S(v) + " (tol " + S(tolK * 10 * us) + ")"); return; } } }
+        if (!fdBiasOracle(ctx, "generated FunctionBased model", ya, sA)) return;
+        if (!fdBiasOracle(ctx, "re-parameterised FunctionBased model", yb, sB)) return;
+        return;
+    }
     {                  // ------------------------------------------------------------------ (d) rigid relocation of the whole model
         const Transform X(Rrel, prel);
         mbgen::ModelSpec spec2 = spec; int nbase = 0;
@@ -360,20 +529,39 @@ void property(const pbt::Tape& t, pbt::Ctx& ctx) {
         Obs a = observe(ya, ya.m.state, true); bool ok; Real tolK = dynTol(a.M, ctx, ok); if (!ok) { ctx.reject("ill-conditioned-M"); return; }
         Obs b = observe(yb, yb.m.state, true);
         std::vector<bool> skipR = loneParticleSites(ctx, spec, spec2);
-        compareObs(ctx, "model relocated by a rigid transform", a, b, X, tolK, fscale, true, true, true, nullptr, &skipR);
+        compareObs(ctx, "model relocated by a rigid transform", a, b, X, tolK, fscale, true, true, true, nullptr, &skipR, true);
     }
 }
 
 pbt::Config config() {
     pbt::Config c; c.prop = "C06"; c.K = K6; c.minUnits = 1;
     c.quick = {3000, 10000, 30, 25}; c.thorough = {15000, 40000, 30, 240};
-    c.rule = "rapidcheck tape -> mbgen tree of 1..5 bodies (18 mobilizer types, forward/reversed, frame kinds, quaternion or Euler, non-singular q, u in [-2,2]), gravity in [-10,10]^3, tape-seeded body and mobility forces; mode in {convert, mirror, reverse, relocate}. Non-trivial: convert: a quaternion-capable mobilizer and (>=2 bodies or >=3 dofs); mirror: a mirrored mobilizer with >=2 dofs or not on Ground; reverse: the reversed mobilizer has >=2 dofs or is not a base body; relocate: >=2 bodies and the first is not welded.";
+    c.rule = "rapidcheck tape -> mbgen tree of 1..5 bodies (mode reparam: one body replaced by a FunctionBased mobilizer with generated multi-argument functions and its q=Aq' re-parameterisation) (18 mobilizer types, forward/reversed, frame kinds, quaternion or Euler, non-singular q, u in [-2,2]), gravity in [-10,10]^3, tape-seeded body and mobility forces; mode in {convert, mirror, reverse, relocate, reparam}. Non-trivial: convert: a quaternion-capable mobilizer and (>=2 bodies or >=3 dofs); mirror: a mirrored mobilizer with >=2 dofs or not on Ground; reverse: the reversed mobilizer has >=2 dofs or is not a base body; relocate: >=2 bodies and the first is not welded.";
     c.assumptions = {"reverse: only mobilizer types whose set of relative motions is closed under inversion are reversed (Pin, Slider, Cylinder, Screw with pitch != 0, Planar, Ball, Free, Translation, Gimbal, Bushing); setQToFitTransform/setUToFitVelocity of these types are trusted (C05)",
                      "tolerances: poses/velocities/KE 1e-10 relative, M 1e-11, accelerations/reactions/udot 1e5*eps*nu*kappa(M) (observed <= 1e-3 of that), FD acceleration clause 1e-5 (observed <= 0.23e-6/1e-6 i.e. 40x margin); kappa(M) >= 1e9 rejected",
                      "mirror: FunctionBased built from identity/constant Functions; Custom Ball only in quaternion models"};
-    c.requiredLabels = {"mode:convert", "mode:mirror", "mode:reverse", "mode:relocate", "convert:quat->euler", "convert:euler->quat", "mob:Ellipsoid/rev/quat", "mob:FreeLine/fwd/euler", "mob:LineOrientation/rev/quat",
+    c.requiredLabels = {"mode:convert", "mode:mirror", "mode:reverse", "mode:relocate", "mode:reparam", "fb:multi-argument", "fb:mixed-second-partial", "fb:mirror:BendStretch", "fb:mirror:SphericalCoords", "fb:mirror:CantileverFreeBeam", "mirror:FunctionBased:BendStretch/rev", "mirror:FunctionBased:SphericalCoords/fwd", "mirror:FunctionBased:Screw/fwd", "reparam:2-coordinates", "reparam:3-coordinates", "reparam:reversed", "reparam:translation-functions-only", "reparam:rotation-functions", "convert:quat->euler", "convert:euler->quat", "mob:Ellipsoid/rev/quat", "mob:FreeLine/fwd/euler", "mob:LineOrientation/rev/quat",
                         "mirror:FunctionBased:Universal/rev", "mirror:FunctionBased:Bushing/fwd", "mirror:FunctionBased:Planar/rev", "mirror:FunctionBased:Gimbal/fwd", "mirror:FunctionBased:Cylinder/rev", "mirror:Custom:Ball/fwd", "mirror:Custom:Ball/rev", "mirror:Custom:Pin/rev", "mirror:Custom:Slider/fwd",
                         "reverse:Free/fwd->rev/quat", "reverse:Free/rev->fwd/euler", "reverse:Planar/fwd->rev", "reverse:Bushing/rev->fwd", "reverse:Gimbal/fwd->rev", "reverse:Screw/fwd->rev", "reverse:Ball/rev->fwd/quat", "loneparticle-vs-general-node", "nbodies:4-6"};
+    c.directed.push_back({"functionbased-rotation-functions-swapped-coordinates", "functionbased-hdot-rotation-coupling", [](pbt::Ctx& ctx) {
+        // the same universal-type joint twice: rx = q0, ry = q1 and rx = q1', ry = q0' (coordinates swapped); same physical state
+        SpatialVec cor[2]; Vector ud[2];
+        for (int v = 0; v < 2; ++v) {
+            MultibodySystem sys; SimbodyMatterSubsystem matter(sys); GeneralForceSubsystem forces(sys); Force::UniformGravity(forces, matter, Vec3(0, -9.8, 0));
+            Body::Rigid body(MassProperties(1.5, Vec3(0.1, 0.2, 0.3), Inertia(1, 1.2, 1.4)));
+            std::vector<const Function*> fn; std::vector<std::vector<int>> idx;
+            fn.push_back(new IdentFn()); idx.push_back(std::vector<int>(1, v ? 1 : 0)); fn.push_back(new IdentFn()); idx.push_back(std::vector<int>(1, v ? 0 : 1));
+            for (int k = 2; k < 6; ++k) { fn.push_back(new ConstFn()); idx.push_back(std::vector<int>()); }
+            MobilizedBody::FunctionBased fb(matter.Ground(), Transform(), body, Transform(Vec3(0.3, 0, 0.1)), 2, fn, idx);
+            State s = sys.realizeTopology(); sys.realizeModel(s);
+            const Real q[2] = {0.4, 0.7}, u[2] = {1.0, -1.5};
+            for (int j = 0; j < 2; ++j) { fb.setOneQ(s, v ? 1 - j : j, q[j]); fb.setOneU(s, v ? 1 - j : j, u[j]); }
+            sys.realize(s, Stage::Acceleration); cor[v] = matter.getTotalCoriolisAcceleration(s, fb.getMobilizedBodyIndex());
+            ud[v] = s.getUDot(); if (v) std::swap(ud[v][0], ud[v][1]);
+        }
+        ctx.desc << "FunctionBased rx=q0, ry=q1: Coriolis " << cor[0] << " udot " << ud[0] << "; coordinates swapped (rx=q1, ry=q0): Coriolis " << cor[1] << " udot (swapped back) " << ud[1] << "\n";
+        ctx.check(refmob::diff(cor[0], cor[1]) <= 1e-12 && (ud[0] - ud[1]).norm() <= 1e-10, "FunctionBased joint with the coordinate indices of its two rotation functions swapped has a different Coriolis acceleration / udot: differs by " + S(refmob::diff(cor[0], cor[1])) + " / " + S((ud[0] - ud[1]).norm()));
+    }});
     c.directed.push_back({"loneparticle-reaction", "loneparticle-reaction-ignores-com", [](pbt::Ctx& ctx) {
         // the same physical model twice: identity frames (RBNodeLoneParticle) and inboard frame shifted by 1e-300 (general node)
         SpatialVec R[2];
